@@ -55,8 +55,10 @@ EXC_LEAVES = {
     "bool(exception.traceback)": "(PyVal.bool exception.hasTraceback)",
 }
 # json.dumps keyword arguments that may be spelled out with their default value
-HARMLESS = {"skipkeys": "False", "check_circular": "True", "allow_nan": "True", "cls": "None", "indent": "None",
-            "separators": "None", "sort_keys": "False"}
+HARMLESS = {"check_circular": "True", "cls": "None", "indent": "None", "separators": "None"}
+# boolean keyword arguments that are TRANSLATED (json's default -> Lean name): an edit changes the generated
+# constant, the theorems that need the value no longer prove, the model follows the code
+FLAGS = {"sort_keys": (False, "sortKeys"), "skipkeys": (False, "skipKeys"), "allow_nan": (True, "allowNan")}
 
 
 def tr_dict(node, leaves, depth=1, hook=None):
@@ -80,7 +82,7 @@ def tr_dict(node, leaves, depth=1, hook=None):
     term = "PyMembers.nil"
     ind = "  " * depth
     for k, v in reversed(list(zip(keys, node.values))):
-        term = "(PyMembers.cons %s %s\n%s%s)" % (lean_chars(k), tr_dict(v, leaves, depth + 1, hook), ind, term)
+        term = "(PyMembers.cons (PyKey.str %s) %s\n%s%s)" % (lean_chars(k), tr_dict(v, leaves, depth + 1, hook), ind, term)
     return "(PyVal.dict\n%s%s)" % (ind, term)
 
 
@@ -379,9 +381,39 @@ def generate():
             raise Unsupported("%d exception summaries in the serialised dict" % len(found))
         exc_term = tr_dict(found[0], EXC_LEAVES)
         default_is_str, ensure_ascii = False, True
+        flags = {lean: dflt for dflt, lean in FLAGS.values()}
+        seen_kw = set()
+        keywords = []
         for kw in val.keywords:
+            if kw.arg is not None:
+                keywords.append(kw)
+                continue
+            # `**NAME` with NAME a module-level dict literal of constant string keys, assigned once
+            lit = None
+            if isinstance(kw.value, ast.Name):
+                binds = [n for n in ast.walk(tree) if isinstance(n, (ast.Assign, ast.AugAssign, ast.AnnAssign))
+                         and any(isinstance(t, ast.Name) and t.id == kw.value.id
+                                 for t in (n.targets if isinstance(n, ast.Assign) else [n.target]))]
+                top = [n for n in tree.body if isinstance(n, ast.Assign) and n in binds]
+                stores = [n for n in ast.walk(tree) if isinstance(n, (ast.Subscript, ast.Attribute)) and isinstance(n.ctx, (ast.Store, ast.Del))
+                          and isinstance(n.value, ast.Name) and n.value.id == kw.value.id]
+                if len(binds) == 1 and len(top) == 1 and not stores and isinstance(top[0].value, ast.Dict):
+                    lit = top[0].value
+            elif isinstance(kw.value, ast.Dict):
+                lit = kw.value
+            if lit is None or not all(isinstance(k, ast.Constant) and isinstance(k.value, str) for k in lit.keys):
+                raise Unsupported("json.dumps keyword arguments: ** of something that is not a constant dict literal")
+            keywords += [ast.keyword(arg=k.value, value=v) for k, v in zip(lit.keys, lit.values)]
+        for kw in keywords:
+            if kw.arg in seen_kw:
+                raise Unsupported("json.dumps keyword arguments: repeated keyword")
+            seen_kw.add(kw.arg)
             src = ast.unparse(kw.value)
-            if kw.arg == "default":
+            if kw.arg in FLAGS:
+                if src not in ("True", "False"):
+                    raise Unsupported("json.dumps %s=%s" % (kw.arg, src))
+                flags[FLAGS[kw.arg][1]] = src == "True"
+            elif kw.arg == "default":
                 if src == "str":
                     default_is_str = True
                 elif src != "None":
@@ -404,6 +436,12 @@ def generate():
         body += "/-- `json.dumps(..., default=str)` -/\ndef defaultIsStr : Bool := %s\n" % ("true" if default_is_str else "false")
         body += "/-- `json.dumps(..., ensure_ascii=…)` (json's default is True) -/\ndef ensureAscii : Bool := %s\n" % (
             "true" if ensure_ascii else "false")
+        body += "/-- `json.dumps(..., sort_keys=…)` (default False): `sorted(dct.items())` before encoding a dict -/\n"
+        body += "def sortKeys : Bool := %s\n" % ("true" if flags["sortKeys"] else "false")
+        body += "/-- `json.dumps(..., skipkeys=…)` (default False): drop members whose key has no rule instead of TypeError -/\n"
+        body += "def skipKeys : Bool := %s\n" % ("true" if flags["skipKeys"] else "false")
+        body += "/-- `json.dumps(..., allow_nan=…)` (default True): NaN / Infinity / -Infinity are written, not refused -/\n"
+        body += "def allowNan : Bool := %s\n" % ("true" if flags["allowNan"] else "false")
         body += "/-- `_serialize_record` is a @staticmethod of (text, record) reading no other name (AST check):\n"
         body += "    nothing a handler has seen before can influence what it serialises -/\n"
         body += "def serializeIsPure : Bool := true\n"
@@ -449,6 +487,75 @@ def generate():
         n_msg = sum(1 for n in ast.walk(em) if isinstance(n, ast.Call) and ast.unparse(n.func) == "Message")
         if n_msg != 1:
             raise Unsupported("emit: %d Message(...) constructions" % n_msg)
+        # ---- emit: what happens to an error of `_serialize_record` (the try/except around the whole body)
+        ser_stmt = lst[i]
+
+        def contains(stmts, target):
+            return any(n is target for st in stmts for n in ast.walk(st))
+
+        tries = [n for n in ast.walk(em) if isinstance(n, ast.Try) and contains(n.body, ser_stmt)]
+        if len(tries) != 1:
+            raise Unsupported("emit: serialisation is inside %d try statements" % len(tries))
+        tr = tries[0]
+        if tr.finalbody or tr.orelse or len(tr.handlers) != 1:
+            raise Unsupported("emit: try statement around the serialisation has else/finally/several handlers")
+        if not contains(tr.body, wrapped[0]):
+            raise Unsupported("emit: Message(...) is built outside the try statement")
+        hd = tr.handlers[0]
+        if hd.type is None or ast.unparse(hd.type) != "Exception":
+            raise Unsupported("emit: handler is not `except Exception:`")
+        SC, PRINT = "self._error_interceptor.should_catch()", "self._error_interceptor.print(record)"
+        henv = {}
+
+        def hx(node):
+            """source of an expression of the handler body with its single-assignment locals inlined"""
+            return ast.unparse(ev.expr(node, henv))
+
+        def on_error(stmts, sc, printed=False):
+            """interpret the handler body for should_catch() == sc"""
+            for st in stmts:
+                if isinstance(st, ast.Assign) and len(st.targets) == 1 and isinstance(st.targets[0], ast.Name) \
+                        and st.targets[0].id not in henv and hx(st.value) in (SC, "self._error_interceptor"):
+                    henv[st.targets[0].id] = ev.expr(st.value, henv)     # alias of the interceptor / of its answer
+                elif isinstance(st, ast.If):
+                    t = hx(st.test)
+                    if t == SC:
+                        branch = st.body if sc else st.orelse
+                    elif t in ("not " + SC, "not (%s)" % SC):
+                        branch = st.orelse if sc else st.body
+                    else:
+                        raise Unsupported("emit: handler tests " + t)
+                    r = on_error(branch, sc, printed)
+                    if r in ("reraise", "report"):
+                        return r
+                    printed = printed or r == "printed"
+                elif isinstance(st, ast.Raise) and st.cause is None and (
+                        st.exc is None or (hd.name is not None and isinstance(st.exc, ast.Name) and st.exc.id == hd.name)):
+                    return "reraise"
+                elif isinstance(st, ast.Expr) and hx(st.value) == PRINT:
+                    printed = True
+                elif isinstance(st, ast.Return) and st.value is None:
+                    if not printed:
+                        raise Unsupported("emit: handler returns without reporting")
+                    return "report"
+                elif isinstance(st, ast.Pass):
+                    pass
+                else:
+                    raise Unsupported("emit: handler statement " + ast.unparse(st)[:80])
+            return "printed" if printed else "nothing"
+
+        acts = {}
+        for sc in (True, False):
+            henv.clear()
+            r = on_error(hd.body, sc)
+            if r == "printed":
+                r = "report"
+            if r not in ("reraise", "report"):
+                raise Unsupported("emit: handler neither re-raises nor reports when should_catch() is %r" % sc)
+            acts[sc] = r
+        body += "/-- `emit`: the `except Exception:` clause around formatting + serialisation + the sink write, as a\n"
+        body += "    function of `self._error_interceptor.should_catch()` (the handler's `catch=` argument) -/\n"
+        body += "def onError (shouldCatch : Bool) : ErrAction := if shouldCatch then .%s else .%s\n\n" % (acts[True], acts[False])
         body += "/-- `emit`: `if self._serialize: formatted = self._serialize_record(formatted, record)` is the last\n"
         body += "    assignment to `formatted` before `Message(formatted)` (checked on the AST) -/\n"
         body += "def serializeAfterFormatting : Bool := true\n\n"
